@@ -4,6 +4,7 @@ package main
 
 import (
 	"fmt"
+	"go/ast"
 	"go/constant"
 	"go/token"
 	"go/types"
@@ -229,6 +230,40 @@ var ruleEsc = &Rule{
 					for k, v := range runeMapLiteral(p, lk.X) {
 						if k > 32 && k < 127 {
 							m[k] = v
+						}
+					}
+				}
+			}
+			// … or an array indexed with the escape letter (in this method or
+			// in a helper whose result is written): the value loaded from
+			// table[ch] reaches WriteRune
+			theProg = p
+			scan := []*ssa.Function{fn}
+			for _, c := range p.allCalls(fn) {
+				if sc := c.Call.StaticCallee(); sc != nil && fnPkgPath(sc) == pkgParser && sc.Blocks != nil && sc.Signature.Recv() == nil {
+					scan = append(scan, sc)
+				}
+			}
+			for _, sf := range scan {
+				for _, b := range sf.Blocks {
+					for _, ins := range b.Instrs {
+						ld, ok := ins.(*ssa.UnOp)
+						if !ok || ld.Op != token.MUL {
+							continue
+						}
+						ia, ok := ld.X.(*ssa.IndexAddr)
+						if !ok {
+							continue
+						}
+						g, ok := ia.X.(*ssa.Global)
+						if !ok || !reachesWriteRune(ld, map[ssa.Value]bool{}, 0) {
+							continue
+						}
+						// only when the write happens in fn itself
+						for k, v := range runeArrayLiteral(p, g) {
+							if k > 32 && k < 127 && v != 0 {
+								m[k] = v
+							}
 						}
 					}
 				}
@@ -588,9 +623,97 @@ func reachesWriteRune(v ssa.Value, seen map[ssa.Value]bool, depth int) bool {
 			if reachesWriteRune(x, seen, depth+1) {
 				return true
 			}
+		case *ssa.BinOp, *ssa.If:
+			// a test of the looked-up value (`if ctl != 0`) does not consume it
+		case *ssa.Return:
+			// returned by a small helper: followed into its callers
+			if theProg != nil {
+				if n := theProg.CG.Nodes[x.Parent()]; n != nil {
+					for _, e := range n.In {
+						if c, ok := e.Site.(*ssa.Call); ok && c.Call.StaticCallee() == x.Parent() && reachesWriteRune(c, seen, depth+1) {
+							return true
+						}
+					}
+				}
+			}
 		}
 	}
 	return false
+}
+
+// theProg: the program under analysis, for helpers that have no receiver.
+var theProg *Prog
+
+// runeArrayLiteral: the constant entries of a package-level array variable
+// initialised by a keyed composite literal and never stored to elsewhere.
+func runeArrayLiteral(p *Prog, g *ssa.Global) map[int64]int64 {
+	out := map[int64]int64{}
+	pk := p.Pkgs[g.Pkg.Pkg.Path()]
+	if pk == nil {
+		return out
+	}
+	// no store outside the package initialiser
+	for fn := range p.AllFns {
+		if !inModule(fn) || fn.Name() == "init" {
+			continue
+		}
+		for _, b := range fn.Blocks {
+			for _, ins := range b.Instrs {
+				if st, ok := ins.(*ssa.Store); ok {
+					a := st.Addr
+					for i := 0; i < 3; i++ {
+						if ia, ok := a.(*ssa.IndexAddr); ok {
+							a = ia.X
+						}
+					}
+					if a == ssa.Value(g) {
+						return out
+					}
+				}
+			}
+		}
+	}
+	for _, f := range pk.Syntax {
+		for _, d := range f.Decls {
+			gd, ok := d.(*ast.GenDecl)
+			if !ok || gd.Tok != token.VAR {
+				continue
+			}
+			for _, sp := range gd.Specs {
+				vs := sp.(*ast.ValueSpec)
+				for i, nm := range vs.Names {
+					if pk.TypesInfo.Defs[nm] != g.Object() || i >= len(vs.Values) {
+						continue
+					}
+					cl, ok := vs.Values[i].(*ast.CompositeLit)
+					if !ok {
+						return out
+					}
+					next := int64(0)
+					for _, e := range cl.Elts {
+						val := e
+						if kv, ok := e.(*ast.KeyValueExpr); ok {
+							tv, ok := pk.TypesInfo.Types[kv.Key]
+							if !ok || tv.Value == nil {
+								return map[int64]int64{}
+							}
+							k, _ := constant.Int64Val(constant.ToInt(tv.Value))
+							next = k
+							val = kv.Value
+						}
+						tv, ok := pk.TypesInfo.Types[val]
+						if !ok || tv.Value == nil {
+							return map[int64]int64{}
+						}
+						v, _ := constant.Int64Val(constant.ToInt(tv.Value))
+						out[next] = v
+						next++
+					}
+				}
+			}
+		}
+	}
+	return out
 }
 
 // runeMapLiteral: the constant entries of the map value m (a MakeMap in the
